@@ -266,18 +266,34 @@ impl Queryable for Value {
     where
         T: Into<QueryPath>,
     {
-        convert_js_path(&path.into())
-            .ok()
-            .and_then(|p| self.pointer(p.as_str()))
+        // walk the name / index steps directly: a JSON Pointer would give `~` and `/` a meaning
+        // and could not tell the name "0" from the index 0
+        let JpQuery { segments } = parse_json_path(&path.into()).ok()?;
+        segments.iter().try_fold(self, |v, s| match s {
+            Segment::Selector(Selector::Name(name)) => {
+                v.as_object()?.get(name.trim_matches(|c| c == '\''))
+            }
+            Segment::Selector(Selector::Index(idx)) => {
+                v.as_array()?.get(usize::try_from(*idx).ok()?)
+            }
+            _ => None,
+        })
     }
 
     fn reference_mut<T>(&mut self, path: T) -> Option<&mut Self>
     where
         T: Into<QueryPath>,
     {
-        convert_js_path(&path.into())
-            .ok()
-            .and_then(|p| self.pointer_mut(p.as_str()))
+        let JpQuery { segments } = parse_json_path(&path.into()).ok()?;
+        segments.iter().try_fold(self, |v, s| match s {
+            Segment::Selector(Selector::Name(name)) => v
+                .as_object_mut()?
+                .get_mut(name.trim_matches(|c| c == '\'')),
+            Segment::Selector(Selector::Index(idx)) => {
+                v.as_array_mut()?.get_mut(usize::try_from(*idx).ok()?)
+            }
+            _ => None,
+        })
     }
 }
 
